@@ -757,7 +757,7 @@ func checkC02CLI(c CarrierCLICase, r *rec.Rec) error {
 }
 
 func genC02CLI(t *rapid.T) CarrierCLICase {
-	pc := genPairCase(t, []string{"list", "list", "set", "mset", "setkeys:id"}, func(p *gen.Profile) {
+	pc := genPairCase(t, []string{"list", "list", "set", "mset", "setkeys:id", "set+mset"}, func(p *gen.Profile) {
 		p.Payload = true
 		p.NastyKeys = gen.Chance(t, "nasty", 40)
 		p.Big = 6
